@@ -110,68 +110,155 @@ Lemma process_file ev q st : st_file (process ev q st) = st_file st.
 Proof. reflexivity. Qed.
 
 (** * Histories: queries under arbitrary (changing) configurations and
-    registries, interleaved with flushes *)
+    registries, interleaved with flushes, rotations of the log file and
+    roll-overs of the statistics unit *)
 Inductive lev :=
   | LQuery (ev : env) (q : query)
-  | LFlush.
+  | LFlush
+  | LRotate
+  | LRoll.
 
 Definition apply_ev (st : store) (e : lev) : store :=
   match e with
   | LQuery ev q => process ev q st
   | LFlush => flush st
+  | LRotate => rotate st
+  | LRoll => roll st
   end.
 
 Definition run_log (evs : list lev) : store := fold_left apply_ev evs empty_store.
-Definition all_log (st : store) : list lentry := st_file st ++ st_mem st.
+
+(** Everything the query log holds: the rotated file, the file, the buffer. *)
+Definition all_log (st : store) : list lentry := st_old st ++ st_file st ++ st_mem st.
 
 Fixpoint logged (evs : list lev) : list lentry :=
   match evs with
   | [] => []
   | LQuery ev q :: r => (if should_log ev q then [log_entry ev q] else []) ++ logged r
-  | LFlush :: r => logged r
+  | _ :: r => logged r
   end.
 Fixpoint counted (evs : list lev) : list sentry :=
   match evs with
   | [] => []
   | LQuery ev q :: r => (if should_count ev q then [stat_entry ev q] else []) ++ counted r
-  | LFlush :: r => counted r
+  | _ :: r => counted r
+  end.
+
+Definition is_rotate (e : lev) : bool := match e with LRotate => true | _ => false end.
+
+(** What a rotation drops: the previous querylog.json.1 it overwrites. *)
+Definition dropped_by (st : store) (e : lev) : list lentry :=
+  match e with
+  | LRotate => if st_has_file st then st_old st else []
+  | _ => []
+  end.
+
+Lemma concat_snoc {A} (l : list (list A)) (x : list A) : concat (l ++ [x]) = concat l ++ x.
+Proof. rewrite concat_app. cbn. rewrite app_nil_r. reflexivity. Qed.
+
+Ltac norm_app := cbn [app]; repeat rewrite <- app_assoc; repeat rewrite app_nil_r; cbn [app].
+
+Lemma all_log_step st e :
+  dropped_by st e ++ all_log (apply_ev st e) =
+    all_log st ++ (match e with LQuery ev q => if should_log ev q then [log_entry ev q] else [] | _ => [] end) /\
+  all_stats (apply_ev st e) =
+    all_stats st ++ (match e with LQuery ev q => if should_count ev q then [stat_entry ev q] else [] | _ => [] end).
+Proof.
+  destruct e as [ev q| | |]; cbn [apply_ev dropped_by].
+  - unfold all_log, all_stats, process; cbn [st_old st_file st_mem st_stats st_units].
+    destruct (should_log ev q), (should_count ev q); norm_app; auto.
+  - unfold all_log, all_stats, flush; cbn [st_old st_file st_mem st_stats st_units]. norm_app. auto.
+  - unfold all_log, all_stats, rotate. destruct (st_has_file st); cbn [st_old st_file st_mem st_stats st_units];
+      norm_app; auto.
+  - unfold all_log, all_stats, roll; cbn [st_old st_file st_mem st_stats st_units].
+    rewrite concat_snoc. norm_app. auto.
+Qed.
+
+(** The records a history dropped by rotating twice (oldest first). *)
+Fixpoint dropped_from (st : store) (evs : list lev) : list lentry :=
+  match evs with
+  | [] => []
+  | e :: r => dropped_by st e ++ dropped_from (apply_ev st e) r
   end.
 
 Lemma all_log_fold evs : forall st,
-  all_log (fold_left apply_ev evs st) = all_log st ++ logged evs /\
-  st_stats (fold_left apply_ev evs st) = st_stats st ++ counted evs.
+  dropped_from st evs ++ all_log (fold_left apply_ev evs st) = all_log st ++ logged evs /\
+  all_stats (fold_left apply_ev evs st) = all_stats st ++ counted evs.
 Proof.
-  induction evs as [|e evs IH]; intros st; cbn [fold_left logged counted].
+  induction evs as [|e evs IH]; intros st; cbn [fold_left logged counted dropped_from].
   - rewrite !app_nil_r. auto.
-  - destruct (IH (apply_ev st e)) as [IH1 IH2]. rewrite IH1, IH2. destruct e as [ev q|]; cbn [apply_ev].
-    + unfold all_log, process; cbn [st_file st_mem st_stats].
-      destruct (should_log ev q), (should_count ev q); cbn [app]; rewrite <- ?app_assoc, ?app_nil_r; auto.
-    + unfold all_log, flush; cbn [st_file st_mem st_stats]. rewrite app_nil_r. auto.
+  - destruct (IH (apply_ev st e)) as [IH1 IH2]. destruct (all_log_step st e) as [S1 S2].
+    rewrite <- app_assoc, IH1, IH2, S2, app_assoc, S1.
+    destruct e; norm_app; auto.
 Qed.
 
-(** Everything the log holds (memory or file) / the statistics were updated
-    with is exactly the records of the queries that passed the tests, in order. *)
-Lemma run_log_exact evs :
-  all_log (run_log evs) = logged evs /\ st_stats (run_log evs) = counted evs.
+(** Across rotations and unit roll-overs: the records of the queries that
+    passed the tests, in order, are what an overwritten querylog.json.1 dropped
+    followed by EXACTLY what the log holds (rotated file, file, buffer); the
+    statistics (stored units and the current one) hold exactly the counted
+    records. *)
+Lemma run_log_across_rotation evs :
+  logged evs = dropped_from empty_store evs ++ all_log (run_log evs) /\
+  all_stats (run_log evs) = counted evs.
 Proof. unfold run_log. destruct (all_log_fold evs empty_store) as [H1 H2]. rewrite H1, H2. auto. Qed.
+
+(** Without a rotation nothing is dropped... *)
+Lemma dropped_none evs : forall st, existsb is_rotate evs = false -> dropped_from st evs = [].
+Proof.
+  induction evs as [|e evs IH]; intros st Hn; [reflexivity|].
+  cbn [existsb] in Hn. apply orb_false_iff in Hn. destruct Hn as [He Hn].
+  cbn [dropped_from]. rewrite (IH _ Hn). destruct e; try discriminate He; reflexivity.
+Qed.
+
+(** ... in particular a history without rotation holds exactly the records
+    of the queries that passed the tests, in order. *)
+Lemma run_log_exact evs :
+  existsb is_rotate evs = false ->
+  all_log (run_log evs) = logged evs /\ all_stats (run_log evs) = counted evs.
+Proof.
+  intros Hn. destruct (run_log_across_rotation evs) as [H1 H2]. split; [|exact H2].
+  rewrite H1, (dropped_none evs empty_store Hn). reflexivity.
+Qed.
+
+Definition plain_env : env :=
+  {| e_ix := empty_index; e_dhcp := fun _ => None; e_anon := false; e_qlog_enabled := true; e_refuse_any := false;
+     e_qign := fun _ => false; e_sign := fun _ => false |}.
+
+Lemma rotation_example :
+  let q (n : bytes) := {| q_name := n; q_any := false; q_addr := ([10;1;2;3], []); q_cid := []; q_cid_mac := None |} in
+  let evs := [LQuery plain_env (q [97;46]); LFlush; LRotate; LQuery plain_env (q [98;46]); LRoll;
+              LFlush; LRotate; LQuery plain_env (q [99;46])] in
+  st_old (run_log evs) = [([98], [10;1;2;3], [])] /\ st_file (run_log evs) = [] /\
+  st_mem (run_log evs) = [([99], [10;1;2;3], [])] /\
+  dropped_from empty_store evs = [([97], [10;1;2;3], [])] /\
+  st_units (run_log evs) = [[([97], [], [10;1;2;3]); ([98], [], [10;1;2;3])]] /\
+  st_stats (run_log evs) = [([99], [], [10;1;2;3])].
+Proof. repeat split; vm_compute; reflexivity. Qed.
+
+Lemma all_log_logged evs e : In e (all_log (run_log evs)) -> In e (logged evs).
+Proof. intros H. destruct (run_log_across_rotation evs) as [-> _]. apply in_or_app. right. exact H. Qed.
 
 Lemma logged_in evs e : In e (logged evs) ->
   exists ev q, In (LQuery ev q) evs /\ should_log ev q = true /\ e = log_entry ev q.
 Proof.
-  induction evs as [|[ev q|] evs IH]; cbn [logged]; [intros []| |].
+  induction evs as [|[ev q| | |] evs IH]; cbn [logged]; [intros []| | | |].
   - intros H. apply in_app_or in H. destruct H as [H|H].
     + destruct (should_log ev q) eqn:E; [|destruct H]. destruct H as [<-|[]]. exists ev, q. cbn; auto.
     + destruct (IH H) as (ev' & q' & Hin & Hs & He). exists ev', q'. cbn; auto.
+  - intros H. destruct (IH H) as (ev' & q' & Hin & Hs & He). exists ev', q'. cbn; auto.
+  - intros H. destruct (IH H) as (ev' & q' & Hin & Hs & He). exists ev', q'. cbn; auto.
   - intros H. destruct (IH H) as (ev' & q' & Hin & Hs & He). exists ev', q'. cbn; auto.
 Qed.
 
 Lemma counted_in evs e : In e (counted evs) ->
   exists ev q, In (LQuery ev q) evs /\ should_count ev q = true /\ e = stat_entry ev q.
 Proof.
-  induction evs as [|[ev q|] evs IH]; cbn [counted]; [intros []| |].
+  induction evs as [|[ev q| | |] evs IH]; cbn [counted]; [intros []| | | |].
   - intros H. apply in_app_or in H. destruct H as [H|H].
     + destruct (should_count ev q) eqn:E; [|destruct H]. destruct H as [<-|[]]. exists ev, q. cbn; auto.
     + destruct (IH H) as (ev' & q' & Hin & Hs & He). exists ev', q'. cbn; auto.
+  - intros H. destruct (IH H) as (ev' & q' & Hin & Hs & He). exists ev', q'. cbn; auto.
+  - intros H. destruct (IH H) as (ev' & q' & Hin & Hs & He). exists ev', q'. cbn; auto.
   - intros H. destruct (IH H) as (ev' & q' & Hin & Hs & He). exists ev', q'. cbn; auto.
 Qed.
 
@@ -200,7 +287,7 @@ Theorem log_records_ok evs e :
     qlog_client_ignored (e_ix ev) (e_dhcp ev) (ids_of q) = false /\
     (e_anon ev = true -> snd (fst e) = anonymize (fst (q_addr q)) /\ masked (snd (fst e))).
 Proof.
-  destruct (run_log_exact evs) as [-> _]. intros H.
+  intros H. apply all_log_logged in H.
   destruct (logged_in evs e H) as (ev & q & Hin & Hs & ->).
   destruct (should_log_true ev q Hs) as (H1 & H2 & _).
   exists ev, q. split; [assumption|]. split; [reflexivity|]. split; [exact H1|]. split; [exact H2|].
@@ -208,13 +295,13 @@ Proof.
 Qed.
 
 Theorem stat_records_ok evs s :
-  In s (st_stats (run_log evs)) ->
+  In s (all_stats (run_log evs)) ->
   exists ev q, In (LQuery ev q) evs /\ s = stat_entry ev q /\
     e_sign ev (fst (fst s)) = false /\
     stats_client_counted (e_ix ev) (e_dhcp ev) (ids_of q) = true /\
     (e_anon ev = true -> snd s = [] \/ (snd s = anonymize (fst (q_addr q)) /\ masked (snd s))).
 Proof.
-  destruct (run_log_exact evs) as [_ ->]. intros H.
+  destruct (run_log_across_rotation evs) as [_ ->]. intros H.
   destruct (counted_in evs s H) as (ev & q & Hin & Hs & ->).
   destruct (should_count_true ev q Hs) as (H1 & H2).
   exists ev, q. split; [assumption|]. split; [reflexivity|].
@@ -235,7 +322,8 @@ Proof.
   apply filter_In in H. destruct H as [Hin Hv].
   unfold visible in Hv. apply andb_true_iff in Hv. destruct Hv as [H1 H2]. apply negb_true_iff in H1, H2.
   exists e0. split.
-  - unfold all_log. apply in_app_or in Hin. apply in_or_app. destruct Hin as [Hin|Hin]; apply in_rev in Hin; auto.
+  - unfold all_log. apply in_app_or in Hin. destruct Hin as [Hin|Hin]; [|apply in_app_or in Hin; destruct Hin as [Hin|Hin]];
+      apply in_rev in Hin; apply in_or_app; [right; apply in_or_app; right|right; apply in_or_app; left|left]; exact Hin.
   - destruct e0 as [[n ip] c]. unfold reported; cbn [fst snd] in *.
     split; [reflexivity|]. split; [exact H1|]. split; [exact H2|].
     intros ->. apply anonymize_masked.
@@ -244,7 +332,7 @@ Qed.
 Theorem stats_report_ok ev mac_of st :
   (forall d, In d (stats_domains ev st) -> e_sign ev d = false) /\
   (forall s, In s (stats_clients ev mac_of st) ->
-     In s (st_stats st) /\ stats_client_counted (e_ix ev) (e_dhcp ev) [stat_key_id mac_of s] = true).
+     In s (all_stats st) /\ stats_client_counted (e_ix ev) (e_dhcp ev) [stat_key_id mac_of s] = true).
 Proof.
   split.
   - intros d H. unfold stats_domains in H. apply in_map_iff in H. destruct H as (s & <- & H).
